@@ -631,7 +631,7 @@ func explore(cfg config, hwopt func(*bondmachine.Config)) result {
 				if st.sim.pc == lastPc && !isJump(l) {
 					continue // a program never falls off the end of the ROM (assumption)
 				}
-				if (l.Op == "div" || l.Op == "mod") && divisorZero(st, l) {
+				if (l.Op == "div" || l.Op == "mod" || l.Op == "divp") && divisorZero(st, l) {
 					continue // x in hardware, panic in the simulator: not compared (assumption)
 				}
 				nx, mm, fatal := w.step(cfg, st, l)
